@@ -522,6 +522,9 @@ Interval<To_Boundary, To_Info>::refine_universal(Relation_Symbol rel,
   switch (rel) {
   case LESS_THAN:
     {
+      if (is_boundary_infinity(LOWER, f_lower(x), f_info(x))) {
+        return assign(EMPTY);
+      }
       if (lt(UPPER, upper(), info(), LOWER, f_lower(x), f_info(x))) {
         return combine(V_EQ, V_EQ);
       }
@@ -534,6 +537,9 @@ Interval<To_Boundary, To_Info>::refine_universal(Relation_Symbol rel,
     }
   case LESS_OR_EQUAL:
     {
+      if (is_boundary_infinity(LOWER, f_lower(x), f_info(x))) {
+        return assign(EMPTY);
+      }
       if (le(UPPER, upper(), info(), LOWER, f_lower(x), f_info(x))) {
         return combine(V_EQ, V_EQ);
       }
@@ -545,6 +551,9 @@ Interval<To_Boundary, To_Info>::refine_universal(Relation_Symbol rel,
     }
   case GREATER_THAN:
     {
+      if (is_boundary_infinity(UPPER, f_upper(x), f_info(x))) {
+        return assign(EMPTY);
+      }
       if (gt(LOWER, lower(), info(), UPPER, f_upper(x), f_info(x))) {
         return combine(V_EQ, V_EQ);
       }
@@ -557,6 +566,9 @@ Interval<To_Boundary, To_Info>::refine_universal(Relation_Symbol rel,
     }
   case GREATER_OR_EQUAL:
     {
+      if (is_boundary_infinity(UPPER, f_upper(x), f_info(x))) {
+        return assign(EMPTY);
+      }
       if (ge(LOWER, lower(), info(), UPPER, f_upper(x), f_info(x))) {
         return combine(V_EQ, V_EQ);
       }
@@ -572,18 +584,7 @@ Interval<To_Boundary, To_Info>::refine_universal(Relation_Symbol rel,
     }
     return intersect_assign(x);
   case NOT_EQUAL:
-    {
-      if (check_empty_arg(*this)) {
-        return I_EMPTY;
-      }
-      if (eq(LOWER, lower(), info(), LOWER, f_lower(x), f_info(x))) {
-        remove_inf();
-      }
-      if (eq(UPPER, upper(), info(), UPPER, f_upper(x), f_info(x))) {
-        remove_sup();
-      }
-      return I_ANY;
-    }
+    return difference_assign(x);
   default:
     PPL_UNREACHABLE;
     return I_EMPTY;
